@@ -320,8 +320,15 @@ class Server:
             if len(pipeline) >= self._capacity:
                 if backpressure:
                     raise ServerBacklogFull(len(pipeline))
-                if not self._pipeline_notfull.wait(timeout * 0.99):
-                    raise ServerBacklogFull(len(pipeline), perf_counter() - t0)
+                wait_deadline = t0 + timeout * 0.99
+                # Re-check after every wake-up: between the notification and this
+                # thread re-acquiring the lock, another caller may have taken the
+                # freed slot.
+                while len(pipeline) >= self._capacity:
+                    if not self._pipeline_notfull.wait(
+                        max(0, wait_deadline - perf_counter())
+                    ):
+                        raise ServerBacklogFull(len(pipeline), perf_counter() - t0)
 
             # Record the request in the ledger before it enters the pipeline:
             # a fast worker's result can reach `_gather_output` (which does not
@@ -569,15 +576,21 @@ class AsyncServer:
                     raise ServerBacklogFull(len(pipeline))
                     # If this is behind a HTTP service, should return
                     # code 503 (Service Unavailable) to client.
-                try:
-                    await asyncio.wait_for(
-                        self._pipeline_notfull.wait(), timeout * 0.99
-                    )
-                except (
-                    asyncio.TimeoutError,
-                    TimeoutError,
-                ):  # should be the first one, but official doc referrs to the second
-                    raise ServerBacklogFull(len(pipeline), perf_counter() - t0)
+                wait_deadline = t0 + timeout * 0.99
+                # Re-check after every wake-up: between the notification and this
+                # task re-acquiring the lock, another caller may have taken the
+                # freed slot.
+                while len(pipeline) >= self._capacity:
+                    try:
+                        await asyncio.wait_for(
+                            self._pipeline_notfull.wait(),
+                            max(0, wait_deadline - perf_counter()),
+                        )
+                    except (
+                        asyncio.TimeoutError,
+                        TimeoutError,
+                    ):  # should be the first one, but official doc referrs to the second
+                        raise ServerBacklogFull(len(pipeline), perf_counter() - t0)
 
             # We can't accept situation that an entry is placed in `pipeline`
             # but not in `_input_buffer`, for that entry would be stuck in `pipeline`
